@@ -30,6 +30,8 @@ pub fn sized_engine(shape: &str, prop: &str, max_ops: usize) -> Box<dyn Engine> 
         "tokz" => Box::new(SizedEngine::<TokZ<0>>::new(prop, max_ops)),
         "plain8" => Box::new(SizedEngine::<Plain8>::new(prop, max_ops)),
         "big" => Box::new(SizedEngine::<Big<2100>>::new(prop, max_ops)),
+        // more than 64 KiB inline (code paths keyed on a larger size threshold)
+        "huge" => Box::new(SizedEngine::<Big<70_000>>::new(prop, max_ops)),
         _ => Box::new(SizedEngine::<Tok8>::new(prop, max_ops)),
     }
 }
